@@ -104,6 +104,8 @@ def gen_model(rng, p, n_tasks=None):
         if p["auto"] and rng.random() < 0.25:
             t["auto"] = True
             t["rate"] = rng.choice(SKILL)
+        if not t.get("auto") and rng.random() < 0.08:
+            t["rate"] = rng.choice([0.5, 2.0, 0.25])  # work_amount_progress_of_unit_step_time on a task that is not automatic: not used
         if p["dp"] and rng.random() < 0.3:
             t["dp"] = rng.choice([0.5, 1.0, 0.25, 1.0])
         if rng.random() < 0.2:
@@ -249,7 +251,7 @@ def gen_model(rng, p, n_tasks=None):
             for w in tm["workers"]:
                 for f in allf:
                     if rng.random() < 0.8:
-                        w["fskills"][f] = rng.choice([1.0, 1.0, 0.5, 0.0]) if p["zero_skill"] else 1.0
+                        w["fskills"][f] = rng.choice([1.0, 1.0, 0.5, 0.0, -1.0]) if p["zero_skill"] else 1.0
                 if p["mainwp"] and rng.random() < 0.6:
                     w["mainwp"] = rng.choice(wps)["id"]
         for i in comp_tasks:
